@@ -263,10 +263,24 @@ fn c03_unpaid_put() {
         };
         c.net.hold(r);
     }
-    note(format!("{kind:?} held={held}"));
+    // the uploader may present the record under the key of some *other* record the node holds (of another kind and
+    // address): holding that one does not make this upload an update of a held record
+    let other_kind = if kind == Kind::Register { Kind::Scratchpad } else { Kind::Register };
+    let other_key = address_of(other_kind).to_record_key();
+    let under_other_held_key = !held && choice(2) == 1;
+    if under_other_held_key {
+        c.net.hold(unpaid_record(other_kind, other_key.clone()));
+        cover("presented_under_the_key_of_another_held_record");
+    }
+    note(format!("{kind:?} held={held} presented_under_another_held_key={under_other_held_key}"));
     let before = store_snapshot(&c);
-    let res = block_on(c.node.validate_and_store_record(unpaid_record(kind, key.clone())));
+    let presented_key = if under_other_held_key { other_key.clone() } else { key.clone() };
+    let res = block_on(c.node.validate_and_store_record(unpaid_record(kind, presented_key)));
     let changed = store_snapshot(&c) != before;
+    if under_other_held_key {
+        check_bool("unpaid:not_an_update_of_the_record_held_under_that_key", res.is_err() && !changed);
+        return;
+    }
     match kind {
         Kind::Chunk | Kind::Transaction => {
             cover("immutable_unpaid");
@@ -453,8 +467,38 @@ fn c07_scratchpad_seq() {
 
 fn c07_union() {
     let c = new_ctx();
-    let what = choice(3);
-    if what == 2 {
+    let what = choice(4);
+    if what == 3 {
+        // a register with a writers list that the node holds; an update arrives whose only entry repeats the content of
+        // a held entry (same Merkle node) but is signed by a key that is not a writer, or carries a forged signature
+        use ant_registers::RegisterOp;
+        let reg = Register::new(sk(3).public_key(), XorName([9; 32]), Permissions::new_with([sk(5).public_key()]));
+        let sig = sk(3).sign(reg.bytes().expect("bytes"));
+        let base = SignedRegister::new(reg, sig.clone(), StdBTreeSet::new());
+        let addr = *base.address();
+        let key = NetworkAddress::from_register_address(addr).to_record_key();
+        let node_of = |e: &[u8]| {
+            let mut crdt = ant_registers::RegisterCrdt::new(addr);
+            crdt.write(e.to_vec(), &StdBTreeSet::new()).expect("write").2
+        };
+        let mut held = base.clone();
+        held.add_op(RegisterOp::new(addr, node_of(b"entry-a"), &sk(5))).expect("writer's op");
+        let rec = |r: &SignedRegister| Record { key: key.clone(), value: try_serialize_record(r, RecordKind::Register).unwrap().to_vec(), publisher: None, expires: None };
+        let _ = block_on(c.node.store_replicated_in_record(rec(&held)));
+        c.net.complete_writes();
+        // (signed by a stranger's key; forged signature bytes would need the op's private fields)
+        let bad = RegisterOp::new(addr, node_of(b"entry-a"), &sk(6));
+        let incoming = SignedRegister::new(base.base_register().clone(), sig.clone(), [bad.clone()].into_iter().collect());
+        let via_client = choice(2) == 1;
+        note(format!("restricted register; held entry repeated under an invalid signer/signature; via_client={via_client}"));
+        let _ = if via_client { block_on(c.node.validate_and_store_record(rec(&incoming))) } else { block_on(c.node.store_replicated_in_record(rec(&incoming))) };
+        c.net.complete_writes();
+        let stored: SignedRegister = c.net.inner.store.borrow().get(&key).map(|r| try_deserialize_record(r).unwrap()).expect("still held");
+        cover("restricted_register");
+        check_bool("reg:entry_from_a_non_writer_or_with_a_forged_signature_is_never_stored", !stored.ops().contains(&bad));
+        check_bool("reg:stored_register_verifies", stored.verify().is_ok());
+        check_bool("reg:held_entries_are_kept", stored.ops().len() == 1);
+    } else if what == 2 {
         // one owner key names a transaction address and a scratchpad address (both are the hash of the owner's
         // public key): a validly signed record of the other kind must never replace what is stored there
         let tx1 = the_tx(2, 1, 2);
